@@ -174,6 +174,14 @@ func newStoreModel(c *Ctx) (*storeModel, string) {
 		if f == nil || !core.InModule(f) {
 			return
 		}
+		// its verdict is a bool (an accessor of the radius used in a log line, or prune, is not it)
+		rs := f.Signature.Results()
+		if rs.Len() == 0 {
+			return
+		}
+		if bt, ok := rs.At(0).Type().Underlying().(*types.Basic); !ok || bt.Kind() != types.Bool {
+			return
+		}
 		if m.loadsRadius(f) {
 			m.inRadius = f
 		}
